@@ -72,6 +72,9 @@ DataOut(s, a) ==
 \* time passes beyond the longevity of every outstanding challenge
 ExpireOut(s) == [res |-> "ok", s |-> [s EXCEPT !.chal = [a \in Addr |-> [@[a] EXCEPT !.fresh = FALSE]]]]
 
+\* the read throttle forgets its marks after 20 s
+ThrottleExpireOut(s) == [res |-> "ok", s |-> [s EXCEPT !.throttled = {}]]
+
 \* Saved: a sealed transaction by hash, to any caller that signs the hash with the key of the address it claims
 SavedOut(s, t, a, by) ==
     IF by # a THEN [res |-> "verification", s |-> s]
